@@ -45,7 +45,7 @@ def main():
             rec["tests"] = {"rc": rc, "passed": int(m.group(1)) if m else 0, "failed": int(f.group(1)) if f else 0,
                             "wall_s": round(time.time() - t0), "failures": re.findall(r"^FAILED (\S+)", out, re.M)[:10]}
             # upstream test with an unseeded RNG and an exact-zero assertion: flaky on the unchanged tree as well; re-run it alone
-            FLAKY = "tests/test_compact_encoding.py::test_field_operator_encoding"
+            FLAKY = "tests/test_compact_encoding.py::TestCompactEncoding::test_field_operator_encoding"
             if rec["tests"]["failures"] == [FLAKY]:
                 for _ in range(3):
                     rc2, _o = sh(f"/venv/bin/python -m pytest -q -p no:cacheprovider --timeout=900 {FLAKY}", cwd=wt, env=env, timeout=3600)
